@@ -41,14 +41,14 @@ func main() {
 		}
 	case "fn":
 		t0 := time.Now()
-		e, err := loadEngine("/repo", "/verif/contracts")
+		e, err := loadEngine("/repo", "/verif/contracts", os.Getenv("GOVC_PROP"))
 		if err != nil {
 			fmt.Println("load:", err)
 			os.Exit(2)
 		}
 		fmt.Println("loaded", time.Since(t0))
 		for _, key := range os.Args[2:] {
-			fr := e.verifyFunc(key, false, 4)
+			fr := e.verifyFunc(key, true, 4)
 			if fr.Err != "" {
 				fmt.Println(key, "ERROR", fr.Err)
 				continue
